@@ -313,7 +313,13 @@ class P(Property):
         upto = '' if a[4] == '-' else a[4]
         if not upto.startswith(data):
             return False
-        return a[5] == '*' or o['t'] == a[5]
+        if a[5] == '*' or o['t'] == a[5]:
+            return True
+        # frames of a reserved (grease) type after what the property requires on the refused stream are valid HTTP/3 and
+        # harmless: compared implementation-vs-model only, never a failing input
+        want = '' if a[5] == '-' else a[5]
+        rest = o['t'][len(want):] if o['t'].startswith(want) else None
+        return rest is not None and all(x == 'g' for x in rest.split('.') if x)
 
     @staticmethod
     def must_be_finished(case):
